@@ -11,11 +11,13 @@ import (
 	"errors"
 	"fmt"
 	"io"
+	"strings"
 	"sync"
 	"sync/atomic"
 	"time"
 
 	"github.com/lightninglabs/lightning-node-connect/hashmailrpc"
+	"github.com/lightninglabs/lightning-node-connect/mailbox"
 	"google.golang.org/grpc"
 	"google.golang.org/grpc/codes"
 	"google.golang.org/grpc/metadata"
@@ -33,6 +35,47 @@ type Event struct {
 	// event, Plain whether the relay's leak detector matched the message.
 	Head  []byte
 	Plain bool
+	// Who names the party whose call produced the event (from the call's
+	// context, see WhoOf); set on openRecv / recvErr / sendErr / deliver.
+	Who string
+}
+
+// Namer is implemented by the value a harness stores in a party's context
+// under mailbox.VerifWhoKey{}.
+type Namer interface{ WhoName() string }
+
+// WhoOf returns the name of the party that owns ctx ("" if it has none: the
+// server's listener context carries no name).
+func WhoOf(ctx context.Context) string {
+	if ctx == nil {
+		return ""
+	}
+	if n, ok := ctx.Value(mailbox.VerifWhoKey{}).(Namer); ok {
+		return n.WhoName()
+	}
+	return ""
+}
+
+// errClass is the class of a stream error as the mailbox client sorts them.
+func errClass(err error) string {
+	switch {
+	case err == nil:
+		return ""
+	case strings.Contains(err.Error(), "stream not found"):
+		return "notfound"
+	case strings.Contains(err.Error(), "stream occupied"):
+		return "occupied"
+	}
+	return "other"
+}
+
+// emitWho records an event attributed to a party.
+func (r *Relay) emitWho(ev, sid, who, err string) {
+	e := Event{Ev: ev, SID: sid, Err: err, Who: who, T: time.Since(r.start)}
+	r.Events = append(r.Events, e)
+	if r.OnEvent != nil {
+		r.OnEvent(e)
+	}
 }
 
 // Fate of a relayed message.
@@ -74,8 +117,10 @@ type Relay struct {
 	// failNext: how many of the next Send calls on a stream fail with a
 	// stream error (each also detaches the writer, as a broken connection to
 	// the relay would): several in a row make the sender's retry fail too
-	failNext      map[string]int
-	slowClose     atomic.Int64
+	failNext  map[string]int
+	slowClose atomic.Int64
+	// nextWho: the party to attribute the next event to (set under mu)
+	nextWho       string
 	slowSendClose atomic.Int64
 }
 
@@ -94,7 +139,8 @@ func New() *Relay {
 func (r *Relay) emit(ev, sid string, n int, err string) { r.emitMsg(ev, sid, n, err, nil) }
 
 func (r *Relay) emitMsg(ev, sid string, n int, err string, msg []byte) {
-	e := Event{Ev: ev, SID: sid, Len: n, Err: err, T: time.Since(r.start)}
+	e := Event{Ev: ev, SID: sid, Len: n, Err: err, T: time.Since(r.start), Who: r.nextWho}
+	r.nextWho = ""
 	if msg != nil {
 		h := len(msg)
 		if h > 4 {
@@ -239,6 +285,7 @@ type recvStream struct {
 	s      *stream
 	ctx    context.Context
 	first  error // error to report at the first Recv
+	sid    string
 	failed chan struct{}
 	ferr   error
 	once   sync.Once
@@ -256,21 +303,21 @@ func (r *Relay) RecvStream(ctx context.Context, in *hashmailrpc.CipherBoxDesc,
 		return nil, err
 	}
 	sid := sidOf(in.StreamId)
-	rs := &recvStream{r: r, ctx: ctx, failed: make(chan struct{})}
+	rs := &recvStream{r: r, ctx: ctx, failed: make(chan struct{}), sid: sid}
 	rs.dummyStream.ctx = ctx
 	r.mu.Lock()
 	s, ok := r.streams[sid]
 	switch {
 	case !ok:
 		rs.first = errors.New("rpc error: code = Unknown desc = stream not found")
-		r.emit("openRecv", sid, 0, "notfound")
+		r.emitWho("openRecv", sid, WhoOf(ctx), "notfound")
 	case s.reader != nil:
 		rs.first = errors.New("rpc error: code = Unknown desc = read stream occupied")
-		r.emit("openRecv", sid, 0, "occupied")
+		r.emitWho("openRecv", sid, WhoOf(ctx), "occupied")
 	default:
 		s.reader = rs
 		rs.s = s
-		r.emit("openRecv", sid, 0, "")
+		r.emitWho("openRecv", sid, WhoOf(ctx), "")
 	}
 	r.mu.Unlock()
 	if rs.s != nil {
@@ -291,7 +338,20 @@ func (r *Relay) RecvStream(ctx context.Context, in *hashmailrpc.CipherBoxDesc,
 	return rs, nil
 }
 
+// Recv returns the next message of the stream; every error it returns is
+// recorded first (recvErr, with the class of the error and the caller).
 func (rs *recvStream) Recv() (*hashmailrpc.CipherBox, error) {
+	box, err := rs.recv()
+	if err != nil {
+		sid := rs.sid
+		rs.r.mu.Lock()
+		rs.r.emitWho("recvErr", sid, WhoOf(rs.ctx), errClass(err))
+		rs.r.mu.Unlock()
+	}
+	return box, err
+}
+
+func (rs *recvStream) recv() (*hashmailrpc.CipherBox, error) {
 	if rs.first != nil {
 		return nil, rs.first
 	}
@@ -307,6 +367,7 @@ func (rs *recvStream) Recv() (*hashmailrpc.CipherBox, error) {
 		if len(rs.s.q) > 0 {
 			m := rs.s.q[0]
 			rs.s.q = rs.s.q[1:]
+			rs.r.nextWho = WhoOf(rs.ctx)
 			rs.r.emitMsg("deliver", rs.s.id, len(m), "", m)
 			rs.r.mu.Unlock()
 			return &hashmailrpc.CipherBox{
@@ -364,7 +425,19 @@ func (r *Relay) SendStream(ctx context.Context, _ ...grpc.CallOption) (
 	return ws, nil
 }
 
+// Send hands a message to the relay; every error it returns is recorded first
+// (sendErr, with the caller).
 func (ws *sendStream) Send(box *hashmailrpc.CipherBox) error {
+	err := ws.send(box)
+	if err != nil {
+		ws.r.mu.Lock()
+		ws.r.emitWho("sendErr", sidOf(box.Desc.StreamId), WhoOf(ws.ctx), errClass(err))
+		ws.r.mu.Unlock()
+	}
+	return err
+}
+
+func (ws *sendStream) send(box *hashmailrpc.CipherBox) error {
 	if err := ws.ctx.Err(); err != nil {
 		return status.Error(codes.Canceled, err.Error())
 	}
